@@ -46,6 +46,8 @@ type FuncContract struct {
 	Requires   []*Clause
 	Ensures    []*Clause
 	AtCall     []*Clause // assertions before calls of a named callee (Clause.Target = callee name)
+	AssumeCall []*Clause // explicit assumptions made before calls of a named callee (listed as assumptions)
+	AtMakeChan []*Clause // definitional assumptions about a freshly made channel ($ch)
 	AtGo       []*Clause // assertions before go statements of a named callee
 	AtSend     []*Clause // assertions before every channel send in the function
 	Assumes    []*Clause // assumed at call sites, not checked against the body (listed as assumptions)
@@ -105,7 +107,17 @@ type Axiom struct {
 	Line    int
 }
 
+type ChanInv struct {
+	TypeText string
+	Label    string
+	Props    []string
+	Src      string
+	E        Expr
+	PkgPath  string
+}
+
 type ContractSet struct {
+	ChanInvs []*ChanInv
 	Funcs      map[string]*FuncContract // key: pkgpath + "::" + Key  (externs/ifaces: "::" + Key)
 	GhostVars  map[string]*GhostVar
 	GhostFuncs map[string]*GhostFunc
@@ -353,6 +365,22 @@ func (cs *ContractSet) parseFile(path, pkgPath string) error {
 			gf.Def, gf.DefSrc = e, rest[i+3:]
 			gf.Line, gf.File, gf.PkgPath = rl.line, path, pkgPath
 			cs.GhostFuncs[gf.Name] = gf
+		case "chaninv":
+			// chaninv <elem type> label[props]: expr over $v
+			cur = nil
+			i := strings.Index(rest, " ")
+			if i < 0 {
+				return errf("expected: chaninv <type> label: expr")
+			}
+			label, props, body := splitLabel(strings.TrimSpace(rest[i+1:]))
+			if label == "" {
+				return errf("chaninv needs a label")
+			}
+			e, err := parseExpr(body)
+			if err != nil {
+				return errf("%v", err)
+			}
+			cs.ChanInvs = append(cs.ChanInvs, &ChanInv{TypeText: rest[:i], Label: label, Props: props, Src: body, E: e, PkgPath: pkgPath})
 		case "axiom", "lemma":
 			cur = nil
 			label, props, body := splitLabel(rest)
@@ -420,6 +448,23 @@ func (cs *ContractSet) parseFile(path, pkgPath string) error {
 				}
 				c.Target = fs[0]
 				cur.AtGo = append(cur.AtGo, c)
+			case "assumecall":
+				fs := strings.SplitN(rest, " ", 2)
+				if len(fs) < 2 {
+					return errf("expected: assumecall <callee> label: expr")
+				}
+				c, err := mkClause("assumecall", strings.TrimSpace(fs[1]))
+				if err != nil {
+					return err
+				}
+				c.Target = fs[0]
+				cur.AssumeCall = append(cur.AssumeCall, c)
+			case "atmakechan":
+				c, err := mkClause("atmakechan", rest)
+				if err != nil {
+					return err
+				}
+				cur.AtMakeChan = append(cur.AtMakeChan, c)
 			case "atsend":
 				c, err := mkClause("atsend", rest)
 				if err != nil {
